@@ -298,3 +298,14 @@ CHECKS["C18"] = {
     "outside": ["the full font writer / reader ((*Font).Write, sfnt.Read, cff.Font.Write) with injected faults", "streaming (non-seekable) readers", "files larger than ~150 bytes"],
     "assumptions": ["the failing writer reports short writes together with an error (io.Writer contract)"],
 }
+
+CHECKS["C01"] = {
+    "harnesses": [
+        H(".", ["c01.go", "common.go"], "VerifH_C01_truetype", ["read back"], quick={"params": {"upems": 2, "widthclasses": 2, "symwidths": 2, "perms": 2}, "timeout": 290, "shards": 12}, thorough={"params": {"upems": 3, "widthclasses": 9, "symwidths": 4, "symweight": 1, "perms": 4}, "timeout": 3000, "shards": 16}),
+    ],
+    "level_text": "Compositional and bounded: the table-level round trips and fixed points are decided by the checks of C03, C08, C09, C11, C12, C13 and C14; this check adds the whole-font merge (Font.Write -> sfnt.Read -> Font.Write) executed symbolically on a tiny TrueType font of concrete shape with symbolic numeric fields.  It holds for all values of those fields within the bounds, and says nothing about other font shapes.",
+    "bounds": {"quick": "one TrueType font shape: 4 glyphs (simple, simple, composite, empty), format 12 cmap for 2 characters, no GSUB/GPOS/GDEF, concrete strings and timestamps; symbolic islands: 2 of the 4 advance widths (>= 0) [all 4 in thorough], ascent, descent, line gap, cap height, x-height (> 0), weight class of {400,650,700} [1..1000], width class of {5,1} [all 9], bold/regular flags, serif/script/neither by case split, 2 [4] permission classes, all 64 code page bits, underline position and thickness; units per em of {1000, 2048}; three representative map iteration orders; obligations: unambiguous fields equal after Read(Write(F)), Write twice byte-identical, Write(Read(Write(Read(Write F)))) == Write(Read(Write F))",
+               "thorough": "all 9 width classes, units per em 16 as well"},
+    "outside": ["CFF and CID-keyed fonts at font level", "GSUB/GPOS/GDEF inside the whole font", "arbitrary accepted byte strings as whole files", "strings, version and timestamps as symbols", "italic angle other than 0 (trigonometric functions)", "fonts with more than 4 glyphs"],
+    "assumptions": ["derived style fields (IsBold/IsItalic/IsRegular, which the reader also infers from weight and subfamily name) are compared only through the fixed point, not against F"],
+}
